@@ -121,6 +121,7 @@ def _c10():
     hs.append(H(_R, "c10_decode_health", "Health only in V1, text preserved, invalid UTF-8 rejected", "type 11 + 4 symbolic bytes, both versions"))
     hs.append(H(_R, "c10_decode_long_varint_total", "multi-byte varint frame types never panic; out-of-range tags are errors", "12 symbolic bytes, first >= 64", timeout=600))
     hs.append(H(_R, "c10_limit_agreement", "a frame at the sender-side size limit is accepted by the receiving decoder", "frame of exactly MAX_PACKET_SIZE bytes", timeout=600))
+    hs.append(H(_R, "c10_limit_agreement_r2c", "a relay->client datagram frame (single and batch) of exactly MAX_PACKET_SIZE bytes - the largest the relay's sending half lets through - is accepted by the client decoder, both versions", "frames of exactly MAX_PACKET_SIZE bytes", timeout=600))
     hs.append(W(_R, "c10_witness", timeout=600))
     return hs
 
